@@ -74,10 +74,9 @@ C13b == Inv_C13b(g)
 C13c == Inv_C13c(g)
 
 ---------------------------------------------------------------------------
-\* per node, never one big set of all edges
-IdxWhere(i, seq, Bad(_, _)) == {<<i, j>> : j \in {k \in DOMAIN seq : Bad(Nodes[i], seq[k])}}
-EdgesWhere(Bad(_, _))  == UNION {IdxWhere(i, Nodes[i].e, Bad) : i \in DOMAIN Nodes}
-ProbesWhere(Bad(_, _)) == UNION {IdxWhere(i, Nodes[i].p, Bad) : i \in DOMAIN Nodes}
+\* Everything below is evaluated once, at start-up, node by node: no set of all edges is ever
+\* built (TLC's UNION is quadratic), the report lists per node the INDICES of the offending
+\* edges / probes.  Run with -workers 1: TLC evaluates constants once per worker.
 
 \* 1. conformance
 EdgeConforms(nd, e) ==
@@ -89,13 +88,16 @@ ProbeConforms(nd, p) ==
       o2 == Step(o1.s, Alphabet[p[2]], K) IN
   /\ o2.resp = Resp(p[3], p[4])
   /\ p[5] >= 0 => Obs(o2.s) = PostOf(nd, p[5])
-DivergentEdges  == EdgesWhere(LAMBDA nd, e : ~EdgeConforms(nd, e))
-DivergentProbes == ProbesWhere(LAMBDA nd, p : ~ProbeConforms(nd, p))
 
-\* 2./3. the monitors, edge by edge
-MoveBad  == EdgesWhere(LAMBDA nd, e : ~EdgeGhost(InitGhost, nd, e).moveOK)
-FrameBad == EdgesWhere(LAMBDA nd, e : ~EdgeGhost(InitGhost, nd, e).frameOK)
-LaterBad == ProbesWhere(LAMBDA nd, p : ~GhostProbe(InitGhost, Resp(p[3], p[4])).laterOK)
+\* per node: the indices of its edges / probes for which Bad holds
+EdgesWhere(Bad(_, _))  == [i \in DOMAIN Nodes |-> {j \in DOMAIN Nodes[i].e : Bad(Nodes[i], Nodes[i].e[j])}]
+ProbesWhere(Bad(_, _)) == [i \in DOMAIN Nodes |-> {j \in DOMAIN Nodes[i].p : Bad(Nodes[i], Nodes[i].p[j])}]
+Count(f) == FoldLeft(LAMBDA acc, i : acc + Cardinality(f[i]), 0, [i \in DOMAIN f |-> i])
+Listed(f) == [i \in DOMAIN f |-> SetToSeq(f[i])]
+\* the first n <<node index, edge index>> pairs
+FirstPairs(f, n) == FoldLeft(LAMBDA acc, i : IF Len(acc) >= n THEN acc
+                                             ELSE acc \o [k \in 1..MinOf(n - Len(acc), Cardinality(f[i])) |-> <<i, SetToSeq(f[i])[k]>>],
+                             <<>>, [i \in DOMAIN f |-> i])
 
 NEdges  == FoldLeft(LAMBDA acc, nd : acc + Len(nd.e), 0, Nodes)
 NProbes == FoldLeft(LAMBDA acc, nd : acc + Len(nd.p), 0, Nodes)
@@ -112,23 +114,24 @@ DescribeProbe(x) == LET nd == Nodes[x[1]] p == nd.p[x[2]] IN
   [node |-> nd.id, qi |-> p[1], ri |-> p[2], pre |-> nd.pre, q |-> Alphabet[p[1]], req |-> Alphabet[p[2]],
    ok |-> p[3], err |-> p[4], to |-> p[5],
    expected |-> Step(Step(StateOf(nd), Alphabet[p[1]], K).s, Alphabet[p[2]], K).resp]
-\* violating edges / probes as compact tuples (the orchestration expands them):
-\*   edge  <<node, request, ok, err, changed>>      probe <<node, refused request, probe request, ok, err>>
-EdgeTuple(x)  == LET nd == Nodes[x[1]] e == nd.e[x[2]] IN <<nd.id, e[2], e[3], e[4], e[5]>>
-ProbeTuple(x) == LET nd == Nodes[x[1]] p == nd.p[x[2]] IN <<nd.id, p[1], p[2], p[3], p[4]>>
-FirstN(S, n) == LET q == SetToSeq(S) IN SubSeq(q, 1, MinOf(n, Len(q)))
 
+\* move_bad / frame_bad / later_bad: per node (in file order) the indices of the edges / probes on
+\* which the monitor fails
 Report ==
+  LET de == EdgesWhere(LAMBDA nd, e : ~EdgeConforms(nd, e))
+      dp == ProbesWhere(LAMBDA nd, p : ~ProbeConforms(nd, p))
+      des == FirstPairs(de, 12)
+      dps == FirstPairs(dp, 12) IN
   [ nodes    |-> Len(Nodes),
     expanded |-> Cardinality({i \in DOMAIN Nodes : Nodes[i].x}),
     edges    |-> NEdges, probes |-> NProbes, accepted |-> Accepted, refused |-> Refused,
-    n_divergent_edges  |-> Cardinality(DivergentEdges),
-    n_divergent_probes |-> Cardinality(DivergentProbes),
-    divergent_edges  |-> [i \in DOMAIN FirstN(DivergentEdges, 12) |-> DescribeEdge(FirstN(DivergentEdges, 12)[i])],
-    divergent_probes |-> [i \in DOMAIN FirstN(DivergentProbes, 12) |-> DescribeProbe(FirstN(DivergentProbes, 12)[i])],
-    move_bad  |-> SetToSeq({EdgeTuple(x) : x \in MoveBad}),
-    frame_bad |-> SetToSeq({EdgeTuple(x) : x \in FrameBad}),
-    later_bad |-> SetToSeq({ProbeTuple(x) : x \in LaterBad}) ]
+    n_divergent_edges  |-> Count(de),
+    n_divergent_probes |-> Count(dp),
+    divergent_edges  |-> [i \in DOMAIN des |-> DescribeEdge(des[i])],
+    divergent_probes |-> [i \in DOMAIN dps |-> DescribeProbe(dps[i])],
+    move_bad  |-> Listed(EdgesWhere(LAMBDA nd, e : ~EdgeGhost(InitGhost, nd, e).moveOK)),
+    frame_bad |-> Listed(EdgesWhere(LAMBDA nd, e : ~EdgeGhost(InitGhost, nd, e).frameOK)),
+    later_bad |-> Listed(ProbesWhere(LAMBDA nd, p : ~GhostProbe(InitGhost, Resp(p[3], p[4])).laterOK)) ]
 
 \* TR_REPORT = "-": monitors only (the run with INVARIANTS), no conformance report
 ASSUME IOEnv.TR_REPORT = "-" \/ JsonSerialize(IOEnv.TR_REPORT, Report)
